@@ -296,6 +296,22 @@ def span_coords(X, tol=1e-9):
     return U[:, :r] * s[:r], r
 
 
+def span_is_ambiguous(X):
+    """True when the cloud is neither clearly flat nor clearly full in some direction: a
+    singular value between 1e-9 and 2e-2 of the largest one.  The library calls a direction
+    flat when it explains less than 1e-5 of the variance (std ratio 3e-3); a reference that
+    calls it flat at 1e-9 would disagree about the *dimension* of the span in between, which
+    is a convention, not a defect."""
+    X = np.asarray(X, float)
+    if X.ndim == 1 or X.shape[1] < 2 or len(X) < 2:
+        return False
+    sv = np.linalg.svd(X - X.mean(0), compute_uv=False)
+    if sv[0] == 0:
+        return False
+    r = sv / sv[0]
+    return bool(np.any((r > 1e-9) & (r < 2e-2)))
+
+
 def volume_ref(X):
     from scipy.spatial import ConvexHull
     X = np.asarray(X, float)
@@ -426,6 +442,8 @@ def chroma_measure(pts, metric, mc_seed, n_code):
     pts = pts[pts.sum(1) != 0]          # the dark point has no chromaticity
     C = pts / pts.sum(1, keepdims=True)
     k = C.shape[1]
+    if span_is_ambiguous(C):
+        return None, None, None
     Y, r = span_coords(C)
     Y = Y / math.sqrt(2.0)
     if r == 0:
@@ -653,12 +671,17 @@ def execute(plan):
                 X, meta = pool[op["X"]], cmeta[op["X"]]
                 ref = volume_ref(X)
                 bump("volume_value_checks")
-                if abs(v - ref) > 1e-8 * max(abs(ref), 1e-12):
+                amb = span_is_ambiguous(X)
+                if amb:
+                    bump("volume_not_compared_span_dimension_ambiguous")
+                if not amb and abs(v - ref) > 1e-8 * max(abs(ref), 1e-12):
                     raise Violation(ID, "volume_wrong",
                                     f"volume of a {meta['cls']} cloud in {meta['d']}-D is {v:.9g}, "
                                     f"hull volume within its affine span is {ref:.9g}", f=f,
                                     cloud=meta["cls"], d=meta["d"])
                 tw = op.get("twin")
+                if tw and (amb or span_is_ambiguous(twin_of(tw, X, pool, op["X"]))):
+                    tw = None
                 if tw:
                     cov_twins.add(tw)
                     Xt = twin_of(tw, X, pool, op["X"])
